@@ -4,7 +4,11 @@
     lets [k+1] input octets drive [256^k - 1] loop iterations and as many list
     cells.  The theorem is about the model; harness/c06.py drops inputs the
     library needs more than 0.4 s for, the witness with k = 3 (16 million
-    iterations from 4 octets) is in notes/C06.md. *)
+    iterations from 4 octets) is in notes/C06.md.
+    (* OPEN: oer_dec_steps — for types none of whose SEQUENCE OF / SET OF
+       element types can have width zero, an instrumented decoder makes at most
+       a * (length bs + 1) + b primitive reads and loop iterations; needs a
+       step-counting variant of Oer/OerImpl.v and has not been started. *) *)
 From Asn1V Require Import Base.Prelude Syntax.Asn1.
 From Asn1V Require Import Oer.OerPrim Oer.OerImpl Oer.OerPrimProofs Oer.OerPrimProofs2.
 Open Scope Z_scope.
